@@ -241,3 +241,32 @@ Definition gmon_totals (c : gcase) : bool :=
       end).
 Definition gmon_norace (c : gcase) : bool := negb (g_raced c).
 Definition gmons (l : list gcase) := mon_idx [gmon_live; gmon_stop; gmon_totals; gmon_norace] l.
+
+(* ================================================================ Start/Stop cycles of a real stage *)
+Record ycase := YC {
+  y_stage : cid; y_n : N; y_cycles : N; y_done : N;
+  y_reached : bool;                     (* in every cycle all workers came up *)
+  y_live : list (N * N);                (* (gauge reading with the workers up, number of cycles) *)
+  y_after : list (N * N) }.             (* (gauge reading right after Stop() returned, number of cycles) *)
+
+(* correspondence: the transition system on n workers  Incr; Decr; wg.Done()  with the counter at n *)
+Definition ydiff_case (c : ycase) : bool :=
+  let n := N.to_nat (y_n c) in
+  let s := y_stage c in
+  let ids := List.seq 0 n in
+  let cf0 := start (repeat (stage_worker s []) n) [(LWg s, y_n c)] in
+  let cf1 := run cf0 (map Lb ids) in                           (* every worker did its Incr *)
+  let cf2 := run cf1 (map Lb ids ++ map Lb ids) in             (* ... its Decr and its wg.Done() *)
+  negb (y_reached c) || negb (y_done c =? y_cycles c)
+  || stop_returned s (c_mem cf1) || negb (stop_returned s (c_mem cf2)) || negb (finished cf2)
+  || negb (forallb (fun rc => fst rc =? get (c_mem cf1) (LCnt s)) (y_live c))
+  || negb (forallb (fun rc => fst rc =? get (c_mem cf2) (LCnt s)) (y_after c)).
+Definition ydiffs (l : list ycase) := bad_idx ydiff_case l.
+
+(* 0: workers up => gauge = number of workers, in every cycle *)
+Definition ymon_live (c : ycase) : bool := y_reached c && forallb (fun rc => fst rc =? y_n c) (y_live c).
+(* 1: Stop() returned => gauge = 0, in every cycle (C17_stop_returned_gauge_zero) *)
+Definition ymon_stop (c : ycase) : bool :=
+  forallb (fun rc => fst rc =? 0) (y_after c)
+  && (fold_right (fun rc a => snd rc + a) 0 (y_after c) =? y_cycles c).
+Definition ymons (l : list ycase) := mon_idx [ymon_live; ymon_stop] l.
